@@ -7,6 +7,9 @@ From V Require Import lib.Words lib.Finite gen.GenHuffman spec.PrefixCode model.
 Import ListNotations.
 Open Scope N_scope.
 
+Lemma pinned_kLut : kLut = [0; 8; 4; 12; 2; 10; 6; 14; 1; 9; 5; 13; 3; 11; 7; 15].
+Proof. vm_compute. reflexivity. Qed.
+
 Definition rev_spec (num_bits bits : N) : N := bits_to_N (rev (N_to_bits (N.to_nat num_bits) bits)).
 
 Lemma getA_nthN (l : list N) i : i < N.of_nat (length l) -> getA l i = Done (nthN l i).
